@@ -173,6 +173,29 @@ fn scenario(name: &str, n: usize) -> serde_json::Value {
                 }
             }
         },
+        "too_many_att" => {
+            // a value embedding more endpoints than one message carries: refused (or, on a transport without a limit, delivered whole) -
+            // in no case may a failed exchange leave descriptors behind in either process
+            for _ in 0..n.min(6) {
+                let (tx, rx) = ipc::channel::<Vec<IpcSender<u32>>>().unwrap();
+                let mut keep = Vec::new();
+                let mut v = Vec::new();
+                for _ in 0..65 {
+                    let (s, r) = ipc::channel::<u32>().unwrap();
+                    v.push(s);
+                    keep.push(r);
+                }
+                let sent = tx.send(v).is_ok();
+                if sent {
+                    match rx.try_recv_timeout(std::time::Duration::from_secs(3)) {
+                        Ok(got) if got.len() == 65 => {},
+                        Ok(got) => notes.push(format!("a value with 65 endpoints was accepted and arrived with {}", got.len())),
+                        Err(e) => notes.push(format!("a value with 65 endpoints was accepted by send, the receive failed: {:?}", e)),
+                    }
+                }
+                drop(keep);
+            }
+        },
         "prefix_decode_fresh_thread" => {
             // on a FRESH thread (its per-thread decode state untouched): a message carrying two senders is decoded as a type that only
             // reads the first one (version skew; bincode accepts trailing bytes).  The second sender must be released with the message,
@@ -257,10 +280,25 @@ fn scenario(name: &str, n: usize) -> serde_json::Value {
             }
             for _ in 0..n {
                 let (tx, _rx) = ipc::channel::<(IpcSender<u32>, ipc::IpcReceiver<u32>, IpcSharedMemory, Refuses)>().unwrap();
-                let (a, _ar) = ipc::channel::<u32>().unwrap();
-                let (_b, br) = ipc::channel::<u32>().unwrap();
+                let (a, ar) = ipc::channel::<u32>().unwrap();
+                let (b, br) = ipc::channel::<u32>().unwrap();
                 if tx.send((a, br, IpcSharedMemory::from_bytes(b"0123456789"), Refuses)).is_ok() {
                     notes.push("a send whose serialisation failed reported success".into());
+                }
+                // the value (with the only sender of one channel and the receiver of another) went down with the failed send
+                match ar.try_recv() {
+                    Err(ipc_channel::ipc::TryRecvError::IpcError(ipc_channel::ipc::IpcError::Disconnected)) => {},
+                    other => {
+                        if notes.len() < 3 {
+                            notes.push(format!(
+                                "a send failed while serialising, after embedding the only sender of a channel; every handle of the program is gone, yet that channel reports {:?} instead of 'disconnected'",
+                                other.map(|_| "a message")
+                            ))
+                        }
+                    },
+                }
+                if b.send(1).is_ok() && notes.len() < 3 {
+                    notes.push("a send failed while serialising, after embedding a channel's receiver; a later send on that channel succeeded".into());
                 }
                 // decode failure: (bool, sender, receiver, region) receives a first byte that is not a bool
                 let (tx2, rx2) = ipc::channel::<(u8, IpcSender<u32>, ipc::IpcReceiver<u32>, IpcSharedMemory)>().unwrap();
